@@ -6,7 +6,7 @@ set -e
 cd "$(dirname "$0")"
 export GOFLAGS=-mod=mod GOPROXY=off GOSUMDB=off GOTOOLCHAIN=local
 REPO="${VERIF_REPO:-/repo}"
-mkdir -p build/facts build/audit build/run evidence replays
+mkdir -p build/facts build/audit build/run evidence replays lean/EinoV/Gen
 ./tools/genlake.py
 cp "$REPO/go.sum" harness/go.sum
 TARGETS=""
